@@ -195,6 +195,23 @@ async def run_scenario(sc):
                     raise Problem("child expected to die on its own is still running")
                 await anyio.sleep(0.01)
             await anyio.sleep(0.15)      # let the child watcher publish the return code
+            if sc.get("polls"):
+                # a long-lived client keeps trying on the dead connection (health check / retry loop): every one of these
+                # requests ends - timeout or error - however many there are (more than any queue on the way holds)
+                tally = {"timeout": 0, "error": 0, "hung": 0, "returns": []}
+                for i in range(sc["polls"]):
+                    try:
+                        o = await asyncio.wait_for(request(read, write, "ping", sc["tok"] + 100000 + i, 0.05), 3.0)
+                    except asyncio.TimeoutError:
+                        tally["hung"] += 1
+                        if tally["hung"] >= 3:
+                            break
+                        continue
+                    if o[0] == "return":
+                        tally["returns"].append(o)
+                    else:
+                        tally[o[0]] += 1
+                info["polls"] = tally
         if path == "normal":
             info["t0"] = now()
             return
